@@ -59,6 +59,41 @@ CLAIMED = {
         "and metamorphic re-runs with the future removed or rewritten.",
    note=TRUST + "The model is fed the values pandas parsed from the CSV (CSV parsing itself is out of scope); duplicate dates (a pandas constructor error) are excluded by the NoDup hypothesis.",
    design="7/C06", technique="Coq proof (sorted-list / permutation / forward-fill lemmas) + model/implementation correspondence check"),
+ 'C07': dict(
+   text="Machine-checked theorems (props/C07.v): for every configuration and any two markets equal at all instants <= T, session construction "
+        "succeeds/fails identically and everything the run stamps on or before T (equity points, fills, allocation rows, the aborting error) "
+        "is Leibniz-identical; composed with C06 for file-backed markets that agree on rows dated <= day T (later rows rewritten, removed or "
+        "added). Tied to /repo by pairs of real sessions (CSV-backed with the real data source, and table-backed) whose data after a random "
+        "cut day are rewritten / randomised / removed, compared bit-for-bit up to T; the first run of each pair is compared with the model.",
+   note=TRUST + "The theorem gives identity of exact (rational) traces; bit-for-bit identity of floats is established between implementation runs. Alpha models in the model: fixed, universe-driven, top-N momentum, SMA trend (the harness also runs a volatility-filter alpha, implementation-side only). A NaN price reaching a signal window is out of model.",
+   design="7/C07", technique="Coq proof by induction over the (sorted) event list of the session model + model/implementation correspondence check"),
+ 'C08': dict(
+   text="PARTIAL proof + correspondence to an independent executable specification. Spec.v is a naive simulator of the documented rules that "
+        "shares nothing with Broker/PCM/Backtest; every run compares real fixed-weight sessions (both sizers, all schedules, fees, burn-in) "
+        "with Spec.spec_run on fills (time, asset, quantity, price, commission), final cash and holdings and daily equity, and with the session "
+        "model. Machine-checked (props/C08.v): the per-step commutation lemmas of the refinement session-model -> Spec (order execution incl. "
+        "price and commission, sells-first order, equity = cash + marked holdings, the sizing formulas, orders = target - holdings) and one "
+        "concrete instance of the full statement by vm_compute. The composition over the whole event loop is NOT yet a theorem.",
+   note=TRUST + "Level: the full refinement theorem (backtest_refines_spec) is missing; its statement is written out in props/C08.v and its lemmas are named ..._partial. Assurance for the whole-run claim comes from the correspondence runs against Spec.",
+   design="7/C08", technique="executable specification in Coq + per-step refinement lemmas (proved) + implementation-vs-specification correspondence check"),
+ 'C14': dict(
+   text="Machine-checked theorems (props/C14.v) on the session model: in every error-free run the allocation rows are stamped with exactly the "
+        "clock instants that are scheduled and not before burn-in, the equity points with exactly the market closes not before burn-in; fills "
+        "occur only inside exchange hours; no fill precedes the first portfolio construction. Tied to /repo by real sessions over "
+        "start/end/burn-in triples (burn-in on, one second around, between rebalance instants, absent), all rebalance kinds and alpha models, "
+        "with PCM call times, fills, the equity curve (values recomputed from cash + holdings at the close) and the reindexed allocation "
+        "table checked directly.",
+   note=TRUST + "The reindex/forward-fill of get_target_allocations is a pandas call checked by the predicate only. get_equity_curve() on an empty curve raises AttributeError in pandas (recorded as an observation, not claimed).",
+   design="7/C14", technique="Coq proof: trace invariants by induction over the event list + model/implementation correspondence check"),
+ 'C18': dict(
+   text="Machine-checked theorems (props/C18.v) about what could make the code not a function of its inputs: the rebalance asset list, sums and "
+        "per-asset sizing are invariant under any permutation of holdings / universe / dict enumeration; orders are emitted sorted; the asset "
+        "list a signal exposes is (old ++ new entrants in universe order); a memo answers like the function after any query history; "
+        "assets_order_leak_refuted shows the pinned hash-ordered append changes target weights. Tied to /repo by running each backtest twice "
+        "in one process (sharing the memoised CSV data source, with extra queries) and in fresh interpreters under several PYTHONHASHSEEDs, "
+        "incl. dynamic universes whose assets enter together with the top-N momentum alpha on tied momenta; digests compared bit-for-bit.",
+   note=TRUST + "Interpreter-level nondeterminism (hash seeds, lru_cache) is exhibited by the runs; the theorems cover the logical reasons it cannot matter. Order ids (uuid4) are excluded from the digests.",
+   design="7/C18", technique="Coq proof (permutation invariance, memo invariant) + repeated / cross-interpreter implementation runs + correspondence check"),
  'C09': dict(
    text="Machine-checked theorems (props/C09.v): the recorded allocation covers exactly held + universe + alpha keys (zero where alpha is "
         "silent); the order list is exactly target - current per target asset and nothing else, ascending (insertion sort proved a sorted "
